@@ -443,8 +443,28 @@ func RunMembership(w *World, idx int) {
 		case 0: // a new replica arrives
 			f := w.NewFake(int64(r.Range(1, 5)))
 			w.poisonFake(f)
+			failing := ""
+			if r.Chance(20) {
+				// one step of the admission fails on the new replica: the add must fail as a whole and leave no trace
+				failing = []string{"SetReplicaMode", "Snapshot", "RemainSnapshots", "Size", "SectorSize", "GetRevisionCounter", "SetRebuilding"}[r.Intn(7)]
+				f.mu.Lock()
+				f.FailNextMgmt = failing
+				f.mu.Unlock()
+				w.rec(Step{K: "next-admission-step-fails", Addr: f.Addr, Note: failing})
+			}
 			err := w.Add(f)
+			f.mu.Lock()
+			consumed := failing != "" && f.FailNextMgmt == ""
+			f.FailNextMgmt = ""
+			f.mu.Unlock()
 			after = "add"
+			if consumed {
+				w.Res.Count("admission_step_failures:"+failing, 1)
+				after = "add-with-failing-" + failing
+				if _, m := w.Attached(); err != nil && m[f] != "" {
+					w.FailAny([]string{"C18", "C05"}, "failed-add-left-replica-listed:"+failing, fmt.Sprintf("AddReplica(%s) returned %q because its %s call failed, yet the replica is listed as %s: %s", f.Addr, err.Error(), failing, m[f], w.Describe()))
+				}
+			}
 			if err == nil && modeCount(st, types.WO) == 0 && len(st.Replicas) >= w.RF {
 				w.Fail("C18", "add-accepted-beyond-RF", "AddReplica accepted with RF replicas attached and nothing to take over: "+digest(st, true))
 			}
